@@ -36,6 +36,7 @@ EXTENDS Integers, Sequences
 S  == INSTANCE SM2
 BN == INSTANCE BigNat
 By == INSTANCE Bytes
+HxK == INSTANCE Hex
 LOCAL INSTANCE SequencesExt
 
 VARIABLES party, net, adv, reply
@@ -175,14 +176,24 @@ ConfirmInitiator(m) ==
 (* ---------------------------------------------------- adversary actions *)
 (* a square root of b, if there is one: (p, sqrt b) is then the point (0, sqrt b) with a non-canonical abscissa *)
 SqrtB == S!Ec!Sqrt(S!B)
+(* curve points with a tiny abscissa (found by scanning from 0) and a tiny ordinate (y = 1; the abscissa is a root of        *)
+(* x^3 - 3x + b - 1, asserted to be on the curve): x + p resp. y + p are below 2^256, so the non-canonical pair has a         *)
+(* well-formed 65-byte encoding and passes every length test                                                                   *)
+RECURSIVE ScanTinyX(_)
+ScanTinyX(x) == LET dr == S!Ec!Decompress(x, 0) IN IF dr.ok THEN dr.pt ELSE ScanTinyX(BN!Add(x, <<1>>))
+TinyXPt == ScanTinyX(<<1>>)
+TinyYPt == <<BN!Norm(HxK!ToBytes("9c17043effe1a805a74a9a5e70b9d659705d3242094a566dc016f49311178d1f")), <<1>>>>
+ASSUME S!Ec!OnCurve(TinyYPt) /\ S!Ec!OnCurve(TinyXPt)
 BadPoint(kind, R) ==
   IF kind = "inf" THEN Inf
   ELSE IF kind = "offcurve" THEN <<R[1], S!Ec!FAdd(R[2], <<1>>)>>
   ELSE IF kind = "range" THEN <<S!P, IF SqrtB.ok THEN SqrtB.v ELSE <<1>>>>
   ELSE IF kind = "wide" THEN <<BN!Add(R[1], S!P), R[2]>>       \* x + p: same residue, (almost always) 257 bits
   ELSE IF kind = "other" THEN S!Ec!Add(R, S!G)                \* another valid point (or O when R = -G)
+  ELSE IF kind = "xwide32" THEN <<BN!Add(TinyXPt[1], S!P), TinyXPt[2]>>   \* a curve point whose x + p still fits 32 bytes: only the range test refuses it
+  ELSE IF kind = "ywide32" THEN <<TinyYPt[1], BN!Add(TinyYPt[2], S!P)>>   \* likewise y + p
   ELSE R                                                      \* wire kinds leave the value, damage the bytes
-PointKinds == {"inf", "offcurve", "range", "wide", "other"}
+PointKinds == {"inf", "offcurve", "range", "wide", "other", "xwide32", "ywide32"}
 WireKinds == {"short", "long", "prefix", "empty"}
 (* the bytes on the wire for a delivered value *)
 WireBytes(m) ==
